@@ -1189,6 +1189,7 @@ class C05(Prop):
     pid = "C05"
     rule = ("near-valid inputs: generated media/master playlists with one to three mutations (a token replaced by -1, 0, 2^64-1, 2^64, 2^128, nan, "
             "inf, 1e400, empty, lone quote, multi-byte chars; line truncated at any char; lines duplicated/swapped/deleted; text truncated), "
+            "structurally valid playlists with numbers at the edges of the integer and duration types (boundary stream), "
             "random strings over the token alphabet, every tag/attribute type on mutated single lines; every text-accepting entry point; oracle: "
             "the call returns (Ok or Err), never panics, and to_string() of an Ok value returns; correspondence: returned/panicked agree with the "
             "model in which every unwinding primitive is an explicit Panic; thorough adds the time-scaling measurement")
@@ -1223,6 +1224,32 @@ class C05(Prop):
                         if line.strip().startswith(pfx) and g.chance(0.3):
                             out.append(mk("c", n, "tag", ty, hx(line), stream="tag", model=False))
                             n += 1
+        # boundary stream: structurally valid playlists whose numbers sit at the edges of the integer / duration types, so that
+        # every arithmetic step of build() (numbering, byte-range continuation, duration rounding, excess) is reached
+        BIG = [0, 1, 2, 2 ** 32, 2 ** 63, 2 ** 64 - 2, 2 ** 64 - 1]
+        for k in range(count_tier(tier, 2500, 60000)):
+            lines = ["#EXTM3U", "#EXT-X-TARGETDURATION:%d" % g.pick([1, 10, 18446744073, 2 ** 64 - 1])]
+            if g.chance(0.6):
+                lines.append("#EXT-X-MEDIA-SEQUENCE:%d" % g.pick(BIG))
+            if g.chance(0.3):
+                lines.append("#EXT-X-DISCONTINUITY-SEQUENCE:%d" % g.pick(BIG))
+            uri = g.pick(["a.ts", "b.ts"])
+            for j in range(g.r.randint(1, 4)):
+                if g.chance(0.25):
+                    uri = g.pick(["a.ts", "b.ts"])
+                if g.chance(0.75):
+                    ln = g.pick(BIG)
+                    lines.append("#EXT-X-BYTERANGE:%d@%d" % (ln, g.pick(BIG)) if g.chance(0.45) else "#EXT-X-BYTERANGE:%d" % ln)
+                if g.chance(0.2):
+                    lines.append('#EXT-X-KEY:METHOD=AES-128,URI="k"')
+                lines.append("#EXTINF:%s," % g.pick(["1", "0.5", "10", "18446744073", "18446744073709551615", "1.8446744073709552e19", "1e19", "0.9999999995"]))
+                lines.append(uri)
+            text = "\n".join(lines) + "\n"
+            if g.chance(0.3):
+                out.append(mk("c", n, "media_excess", hx(text), g.pick([0, 1, 10 ** 9, (2 ** 64 - 1) * 10 ** 9 + 999999999]), stream="boundary"))
+            else:
+                out.append(mk("c", n, "media", hx(text), stream="boundary"))
+            n += 1
         alphabet = ['"', ",", "=", "@", "/", "x", "0x", "-", "+", ".", "e", "1", "9", "0", "nan", "inf", " ", "é", "\U0001f600", "YES", "NONE",
                     "18446744073709551615", "METHOD", "URI", "#EXT-X-KEY:", "#EXTINF:", "\n", "\r\n", "#EXTM3U", "#EXT-X-TARGETDURATION:", "#EXT-X-STREAM-INF:", "BANDWIDTH=1"]
         for k in range(count_tier(tier, 3000, 100000)):
@@ -1608,6 +1635,10 @@ class C18(Prop):
 
         def add(ty, text, **meta):
             nonlocal n
+            # every text below (except the float pool, which carries its own `accept`) is the text form of a valid value,
+            # built by the generator: its own parser has to accept it
+            if "accept" not in meta:
+                meta["valid"] = True
             out.append(mk("t", n, "tag", ty, hx(text), ty=ty, **meta))
             n += 1
         ints = [0, 1, 9, 10, 255, 256, 2 ** 32, 2 ** 63, 2 ** 64 - 1]
@@ -1685,6 +1716,9 @@ class C18(Prop):
             if not ok:
                 return {"agree": agree, "ok": False, "nontrivial": True, "detail": "float text accepted=%s, expected %s" % (res_kind(i), acc), "stats": {"float_accept": 1}}
         if not (i or "").startswith("ok "):
+            if c["meta"].get("valid"):
+                return {"agree": agree, "ok": False, "nontrivial": True, "stats": {c["meta"]["ty"] + ":rejected": 1},
+                        "detail": "the text form of a valid %s value is rejected by its own parser (%s)" % (c["meta"]["ty"], res_kind(i))}
             return {"agree": agree, "ok": acc is not None or None, "nontrivial": False, "detail": "", "stats": {c["meta"]["ty"] + ":rejected": 1}}
         t = parse_sexp(i)[1]
         re_ = field(t, "re")
@@ -1880,7 +1914,21 @@ class C20(Prop):
                 implicit = g.chance(0.25)
                 script += ["seg -" if implicit else "seg %d" % x, "dur 5000000000", "uri s%d.ts" % j, "end list" if use_list else "end push"]
             script += (["segments"] if use_list else []) + ["build"]
-            out.append(mk("x", n, "bmedia", hx("\n".join(script)), role="explicit", mseq=mseq or 0))
+            # independent expectation: the slot vector (index = position); explicit numbers select their slot, implicit segments go
+            # behind the last slot (push_segment: in call order; segments(): explicit ones first, then the implicit ones)
+            calls = [(None if ln == "seg -" else int(ln.split()[1])) for ln in script if ln.startswith("seg ")]
+            order = calls if not use_list else [x for x in calls if x is not None] + [x for x in calls if x is None]
+            slots = []
+            for x in order:
+                if x is None:
+                    slots.append("i")
+                else:
+                    while len(slots) <= x:
+                        slots.append(None)
+                    slots[x] = "e"
+            exp_ok = all(v is not None for v in slots) and not (slots and slots[0] == "e" and (mseq or 0) > 0)
+            exp_nums = [(j if v == "e" else (mseq or 0) + j) for j, v in enumerate(slots)] if exp_ok else None
+            out.append(mk("x", n, "bmedia", hx("\n".join(script)), role="explicit", mseq=mseq or 0, exp_ok=exp_ok, exp_nums=exp_nums))
             n += 1
         return out
 
@@ -1905,10 +1953,14 @@ class C20(Prop):
             ok = same and rt
             return {"agree": agree, "ok": ok, "known": classify_roundtrip_known(node) if not ok else None, "nontrivial": c["meta"]["nseg"] > 0,
                     "detail": "" if ok else "built value differs from parsed value (same=%s) or does not round-trip (rt=%s)" % (same, rt), "stats": {"both_accept": 1}}
-        # explicit numbers
+        # explicit numbers: build succeeds iff the slots are gap-free (and no explicit number lies before the media sequence);
+        # implicit numbers = media_sequence + position, explicit numbers preserved
+        exp_ok, exp_nums = c["meta"]["exp_ok"], c["meta"]["exp_nums"]
         if node is None:
-            return {"agree": agree, "ok": True, "nontrivial": True, "stats": {"explicit_err": 1}}
+            ok = not exp_ok
+            return {"agree": agree, "ok": ok, "nontrivial": True, "stats": {"explicit_err": 1},
+                    "detail": "" if ok else "build() rejects a gap-free call sequence (expected numbers %s)" % exp_nums}
         nums = [int(field(s, "num")[1]) for s in media_segs(first_dump(node))]
-        # gap-free: the slots 0..n-1 are all filled; implicit numbers = mseq + position
-        ok = len(nums) > 0
-        return {"agree": agree, "ok": ok, "nontrivial": True, "detail": "", "stats": {"explicit_ok": 1}}
+        ok = exp_ok and nums == exp_nums
+        return {"agree": agree, "ok": ok, "nontrivial": True, "stats": {"explicit_ok": 1},
+                "detail": "" if ok else "numbering rule violated: built numbers %s, expected %s (media_sequence + position for implicit, preserved for explicit)" % (nums, exp_nums)}
